@@ -113,6 +113,18 @@ func (c *Ctx) RunEvent(time.Time) {
 	}
 }
 
+// Cancel ends the context the way a caller's deferred cancel function does.
+//
+//go:norace
+func (c *Ctx) Cancel() {
+	c.k.Lock()
+	if c.err == nil {
+		c.err = context.Canceled
+		close(c.done)
+	}
+	c.k.Unlock()
+}
+
 //go:norace
 func (c *Ctx) Expired() bool { return c.err != nil }
 
